@@ -496,6 +496,65 @@ Fixpoint gather_at (t : tree) (d : Z) (ishape : list Z) {struct t} : out tree :=
   end.
 
 (* ==================================================================================================
+   masked_select (_td.py:masked_select): every entry is indexed by the (squeezed) boolean mask, the result is
+   rebuilt by the TensorDict constructor, which checks the entries against the computed batch size
+   ================================================================================================== *)
+(* `while mask_expand.ndimension() > self.batch_dims: squeeze(-1)`, stopping when nothing was squeezed *)
+Fixpoint squeeze_mask (fuel : nat) (ms : list Z) (n : nat) : list Z :=
+  match fuel with
+  | O => ms
+  | S f =>
+      if (n <? List.length ms)%nat then
+        match rev ms with
+        | x :: r => if x =? 1 then squeeze_mask f (rev r) n else ms
+        | [] => ms
+        end
+      else ms
+  end.
+
+Fixpoint is_prefix (a b : list Z) : bool :=
+  match a, b with
+  | [], _ => true
+  | x :: a', y :: b' => (x =? y) && is_prefix a' b'
+  | _, [] => false
+  end.
+
+(* value[mask]: the mask must have exactly the leading dims of what it indexes; those dims collapse to [cnt] *)
+Fixpoint mask_index (t : tree) (ms : list Z) (cnt : Z) {struct t} : out tree :=
+  let k := List.length ms in
+  match t with
+  | Leaf sh => if is_prefix ms sh then Done (Leaf (cnt :: skipn k sh)) else Raised EIndex
+  | Node bs nm ents =>
+      if negb (is_prefix ms bs) then Raised EIndex
+      else
+        let* ents' :=
+          (fix go (l : list (string * tree)) : out (list (string * tree)) :=
+             match l with
+             | [] => Done []
+             | (key, c) :: r => let* c' := mask_index c ms cnt in let* r' := go r in Done ((key, c') :: r')
+             end) ents in
+        let nl := names_list nm (List.length bs) in
+        let nm' := if has_names nm then (let l := None :: skipn k nl in if all_none l then None else Some l) else None in
+        Done (Node (cnt :: skipn k bs) nm' ents')
+  end.
+
+Definition td_masked_select (t : tree) (mshape : list Z) (cnt : Z) : out tree :=
+  match t with
+  | Leaf _ => Unmodelled
+  | Node bs nm ents =>
+      let ms := squeeze_mask (List.length mshape) mshape (List.length bs) in
+      let* ents' :=
+        (fix go (l : list (string * tree)) : out (list (string * tree)) :=
+           match l with
+           | [] => Done []
+           | (key, c) :: r => let* c' := mask_index c ms cnt in let* r' := go r in Done ((key, c') :: r')
+           end) ents in
+      let bs' := cnt :: py_from bs (len mshape) in
+      (* TensorDict(source=d, batch_size=...): "batch dimension mismatch" *)
+      if forallb (fun e => is_prefix bs' (top_shape (snd e))) ents' then Done (Node bs' None ents') else Raised ERuntime
+  end.
+
+(* ==================================================================================================
    stack / cat without out= (_torch_func.py:_stack, _cat); operands have the same keys
    ================================================================================================== *)
 Fixpoint lookup (k : string) (l : list (string * tree)) : option tree :=
@@ -614,4 +673,100 @@ Definition td_cat (ts : list tree) (d : Z) : out tree :=
   match ts with
   | [] => Raised ERuntime
   | t :: r => cat_at (S (depth t)) t r d
+  end.
+
+(* ==================================================================================================
+   stack / cat with out= a TensorDict (_torch_func.py:_stack / _cat, out is not None; _td.py:_stack_onto_)
+   The destination keeps its structure; what the model decides is whether the call is accepted.
+   ================================================================================================== *)
+Fixpoint stack_out_at (fuel : nat) (first : tree) (others : list tree) (d : Z) (dest : tree) {struct fuel} : out tree :=
+  match fuel with
+  | O => Unmodelled
+  | S fuel' =>
+      match first, dest with
+      | Leaf sh, Leaf dsh =>
+          match all_leaves others with
+          | Some shs =>
+              (* torch.stack(..., out=dest): a destination of another shape is resized (with a warning) *)
+              let* s := lift ERuntime (t_stack (sh :: shs) d) in Done (Leaf s)
+          | None => Raised ERuntime
+          end
+      | Node bs nm ents, Node obs onm oents =>
+          let n := Z.of_nat (List.length bs) in
+          let dd := if d <? 0 then n + d + 1 else d in
+          if negb (forallb (fun t => match t with Node b _ _ => list_eqb b bs | Leaf _ => false end) others)
+          then Raised ERuntime
+          else if negb (list_eqb (py_insert bs dd (Z.of_nat (S (List.length others)))) obs) then Raised ERuntime
+          else
+            let* _r :=
+              (fix go (l : list (string * tree)) : out (list (string * tree)) :=
+                 match l with
+                 | [] => Done []
+                 | (k, dst) :: r =>
+                     match lookup k ents, collect k others with
+                     | Some c, Some cs =>
+                         let* c' := stack_out_at fuel' c cs dd dst in
+                         let* r' := go r in
+                         Done ((k, c') :: r')
+                     | _, _ => Unmodelled
+                     end
+                 end) oents in
+            Done (Node obs onm _r)
+      | _, _ => Raised ERuntime
+      end
+  end.
+
+Definition td_stack_out (ts : list tree) (d : Z) (dest : tree) : out tree :=
+  match ts with
+  | [] => Raised ERuntime
+  | t :: r => stack_out_at (S (depth t)) t r d dest
+  end.
+
+Fixpoint cat_out_at (fuel : nat) (first : tree) (others : list tree) (d : Z) (dest : tree) {struct fuel} : out tree :=
+  match fuel with
+  | O => Unmodelled
+  | S fuel' =>
+      match first, dest with
+      | Leaf sh, Leaf dsh =>
+          match all_leaves others with
+          | Some shs =>
+              let* s := lift ERuntime (t_cat (sh :: shs) d) in Done (Leaf s)
+          | None => Raised ERuntime
+          end
+      | Node bs nm ents, Node obs onm oents =>
+          let n := Z.of_nat (List.length bs) in
+          let dd := if d <? 0 then n + d else d in
+          if n <=? dd then Raised ERuntime
+          else if (dd <? - n) then Raised EIndex
+          else if negb (forallb (fun t => match t with Node _ _ _ => true | Leaf _ => false end) others) then Raised ERuntime
+          else
+            let others_bs := map top_shape others in
+            if negb (forallb (fun b => (- len b <=? dd) && (dd <? len b)) others_bs) then Raised EIndex
+            else
+              let total := sumZ (map (fun b => nthZ b (py_pos b dd)) (bs :: others_bs)) in
+              if negb (list_eqb (set_nth (py_pos bs dd) total bs) obs) then Raised ERuntime
+              else
+                (* `for key in keys` : the operands' keys *)
+                let* _r :=
+                  (fix go (l : list (string * tree)) : out (list (string * tree)) :=
+                     match l with
+                     | [] => Done []
+                     | (k, c) :: r =>
+                         match lookup k oents, collect k others with
+                         | Some dst, Some cs =>
+                             let* c' := cat_out_at fuel' c cs dd dst in
+                             let* r' := go r in
+                             Done ((k, c') :: r')
+                         | _, _ => Raised EKey
+                         end
+                     end) ents in
+                Done (Node obs onm (map (fun e => match lookup (fst e) _r with Some c' => (fst e, c') | None => e end) oents))
+      | _, _ => Raised ERuntime
+      end
+  end.
+
+Definition td_cat_out (ts : list tree) (d : Z) (dest : tree) : out tree :=
+  match ts with
+  | [] => Raised ERuntime
+  | t :: r => cat_out_at (S (depth t)) t r d dest
   end.
